@@ -1863,6 +1863,55 @@ func ruleC15Scan(r *Run) {
 		posP = tm.parse.Pos()
 	}
 	r.Check(rule, FuncName(tm.parse)+":placeholders found by varRegex", posP, okP, map[bool]string{true: "registration cuts the route path into placeholders with varRegex", false: "registration does not find the placeholders of the route path with varRegex"}[okP])
+	// what the shared scanner takes for a placeholder: the pattern is a compile-time constant, so it is evaluated
+	// here (constant folding of regexp on a constant, nothing of the program runs) on a family of brace groups that
+	// the documented grammar "{name}" / "{name:regex}" — a brace, anything but '/', a brace — contains: each must be
+	// found, whole, as exactly one placeholder. A pattern that spells out what a name may look like (\w+) silently
+	// turns "/users/{user-id}" into a literal route and makes Build leave the braces in the URL.
+	var pat string
+	havePat := false
+	var patPos token.Pos
+	for _, f := range w.Funcs {
+		eachInstr(f, func(in ssa.Instruction) {
+			st, ok := in.(*ssa.Store)
+			if !ok || st.Addr != ssa.Value(vr) {
+				return
+			}
+			patPos = w.InstrPos(in)
+			if c, isC := st.Val.(*ssa.Call); isC && (calleeName(c) == "regexp.MustCompile" || calleeName(c) == "regexp.MustCompilePOSIX") && len(c.Call.Args) == 1 {
+				if k, isK := constString(c.Call.Args[0]); isK {
+					pat, havePat = k, true
+				}
+			}
+		})
+	}
+	if !havePat {
+		r.Undecided(rule, "rux.varRegex:pattern", patPos, "the placeholder pattern is not regexp.MustCompile(<constant>) stored once into varRegex")
+		return
+	}
+	re, err := regexp.Compile(pat)
+	if err != nil {
+		r.Check(rule, "rux.varRegex:pattern", patPos, false, "the placeholder pattern does not compile: "+err.Error())
+		return
+	}
+	witnesses := [][]string{
+		{"{id}", "{id}"}, {"{user_id}", "{user_id}"}, {"{user-id}", "{user-id}"}, {"{a.b}", "{a.b}"}, {"{名称}", "{名称}"}, {"{0}", "{0}"},
+		{"{ id }", "{ id }"}, {"{id:\\d+}", "{id:\\d+}"}, {"{post-id:\\d+}", "{post-id:\\d+}"}, {"{id:[1-9]{1,2}}", "{id:[1-9]{1,2}}"},
+		{"{n:\\p{L}+}", "{n:\\p{L}+}"}, {"{x:a|b}", "{x:a|b}"},
+		{"/x/{a}/y/{b-c}", "{a}", "{b-c}"}, {"/users/{uid:\\d+}/blog/{id}", "{uid:\\d+}", "{id}"},
+	}
+	bad := ""
+	for _, wt := range witnesses {
+		got := re.FindAllString(wt[0], -1)
+		same := len(got) == len(wt)-1
+		for i := 0; same && i < len(got); i++ {
+			same = got[i] == wt[i+1]
+		}
+		if !same && bad == "" {
+			bad = fmt.Sprintf("in %q the pattern finds %q, the grammar says %q", wt[0], got, wt[1:])
+		}
+	}
+	r.Check(rule, "rux.varRegex:pattern", patPos, bad == "", map[bool]string{true: fmt.Sprintf("the constant pattern %q finds every witness brace group (%d texts) whole", pat, len(witnesses)), false: "the placeholder pattern " + fmt.Sprintf("%q", pat) + " does not cut a path the way the documented grammar does: " + bad + " — such a variable becomes literal text at registration and the builder leaves its braces in the URL"}[bad == ""])
 }
 
 // ---------------------------------------------------------------------------
